@@ -190,4 +190,12 @@ def sbml_tables(repo):
             or src.find("cobra_reaction.lower_bound = p_lb.getValue()") > src.find("cobra_reaction.upper_bound = p_ub.getValue()"):
         raise Abort("_sbml_to_model: assignment of bounds not recognised")
     out.append("Definition sb_reader_wide_default : bool := %s." % ("true" if wide else "false"))
+    # which lists the reader's sid_map (group members are resolved through it) is built from
+    four = "[model.getListOfCompartments(), model.getListOfSpecies(), model.getListOfReactions(), model_groups.getListOfGroups()]"
+    old_shape = ("for obj_list in " + four + ":") in src
+    new_shape = ("obj_lists = " + four) in src and "if model_fbc:\n            obj_lists.insert(3, model_fbc.getListOfGeneProducts())" in src \
+        and "for obj_list in obj_lists:" in src
+    if old_shape == new_shape:
+        raise Abort("_sbml_to_model: construction of sid_map not recognised")
+    out.append("Definition sb_sidmap_genes : bool := %s." % ("true" if new_shape else "false"))
     return "\n".join(out)
